@@ -111,9 +111,7 @@ func c11loop(c *Ctx, fn *ssa.Function) {
 						return false
 					}
 					// all targets: the credited list must come from the aggregate function of the pod
-					arg := cl.Common().Args[1]
-					call, _ := an.ResultOfCall(arg)
-					return call != nil && call.Call.StaticCallee() != nil && strings.Contains(call.Call.StaticCallee().Name(), "KillAndEvictPods$")
+					return isAggregateRelease(cl.Common().Args[1], 0)
 				default:
 					return isSub[in]
 				}
@@ -552,4 +550,75 @@ func c11recorded(c *Ctx) {
 		}
 	}
 	r.Check(ok, "PATH", key, c.InstrPos(ev), "recorded only behind a successful eviction", "the pod is recorded as evicted before (or although) the eviction call failed: in the next rounds its usage counts as released and it is never retried, so eviction stops although nothing was freed")
+}
+
+// isAggregateRelease: v is the per-target sum over ALL collected release functions applied to one pod - a map built in
+// a function (the closure of KillAndEvictPods, a named helper, or inline) whose entries are filled from a call of a
+// function value taken out of a slice (an element of the collection), as opposed to the function of one task (a field
+// of the task).
+func isAggregateRelease(v ssa.Value, depth int) bool {
+	if depth > 3 {
+		return false
+	}
+	srcs := cellSources(v)
+	if len(srcs) == 0 {
+		return false
+	}
+	for _, src := range srcs {
+		switch x := src.(type) {
+		case *ssa.Call:
+			callee := x.Call.StaticCallee()
+			if callee == nil || len(callee.Blocks) == 0 {
+				return false
+			}
+			alts := an.ReturnAlts(callee)
+			if len(alts) == 0 {
+				return false
+			}
+			for _, alt := range alts {
+				if len(alt.Results) != 1 || !isAggregateRelease(alt.Results[0], depth+1) {
+					return false
+				}
+			}
+		case *ssa.MakeMap:
+			filled := false
+			fn := x.Parent()
+			for _, b := range fn.Blocks {
+				for _, in := range b.Instrs {
+					mu, ok := in.(*ssa.MapUpdate)
+					if !ok {
+						continue
+					}
+					same := false
+					for _, m := range cellSources(mu.Map) {
+						if m == ssa.Value(x) {
+							same = true
+						}
+					}
+					if !same {
+						continue
+					}
+					for y := range backwardAll(mu.Value) {
+						call, isCall := y.(*ssa.Call)
+						if !isCall || call.Call.IsInvoke() || call.Call.StaticCallee() != nil {
+							continue
+						}
+						for _, cs := range cellSources(call.Call.Value) {
+							if ld, isLd := cs.(*ssa.UnOp); isLd && ld.Op == token.MUL {
+								if _, isIA := ld.X.(*ssa.IndexAddr); isIA {
+									filled = true
+								}
+							}
+						}
+					}
+				}
+			}
+			if !filled {
+				return false
+			}
+		default:
+			return false
+		}
+	}
+	return true
 }
